@@ -52,6 +52,9 @@ def run(ctx):
         common.require_tlc_ok(ctx, gd, "GenData / Sound / NonExhaustiveRejected")
         gc = common.tlc(ctx, "GenCtl", cfg="GenCtl_quick" if ctx.quick else "GenCtl_full", workers=8, timeout=6000)
         common.require_tlc_ok(ctx, gc, "GenCtl / Sound")
+        go = common.tlc(ctx, "GenColl", cfg="GenColl_2", workers=8, timeout=6000)
+        common.require_tlc_ok(ctx, go, "GenColl / Sound")
+        go_sim = common.tlc(ctx, "GenColl", cfg="GenColl_sim", workers=8, timeout=1500, simulate=1500, depth=6)["cases"]["CASE"] if not ctx.quick else []
         sim_rows = []
         if n_sim:
             gs = common.tlc(ctx, "GenProg", cfg="GenProg_s3", workers=8, timeout=1500, simulate=n_sim, depth=14)
@@ -66,7 +69,7 @@ def run(ctx):
             return list(rows)
         buckets = {}
         for r in rows:
-            key = tuple(sorted(t for t in r["feats"] if t.startswith(("bin:", "un:", "call:", "index:", "slice-shape:", "stmt:", "grp:", "match:", "pat:", "arm:", "data:", "subject:", "ctl:", "ctx:", "jump", "cond:", "matchform:"))))
+            key = tuple(sorted(t for t in r["feats"] if t.startswith(("bin:", "un:", "call:", "index:", "slice-shape:", "stmt:", "grp:", "match:", "pat:", "arm:", "data:", "subject:", "ctl:", "ctx:", "jump", "cond:", "matchform:", "coll:", "m:", "f:", "listcomp", "dictcomp", "closure", "setidx:", "n:fstr", "n:tuple", "n:tfield"))))
             buckets.setdefault(key, []).append(r)
         keys = sorted(buckets)
         rnd.shuffle(keys)
@@ -94,9 +97,12 @@ def run(ctx):
     cases += [pipeline.data_case(r, k) for k, r in enumerate(pick(drows, 110 if ctx.quick else 1396))]
     cases += [pipeline.prog_case(r, k, prefix="s") for k, r in enumerate(uniq_sim[:n_sim])]
     cases += [pipeline.ctl_case(r, k) for k, r in enumerate(pick(crows, 300 if ctx.quick else 6000))]
+    orows = go["cases"]["CASE"]
+    universe += len(orows)
+    cases += [pipeline.coll_case(r, k) for k, r in enumerate(pick(orows, 220 if ctx.quick else 5000) + go_sim)]
     with ctx.timed("self_check"):
         rej = pipeline.self_check_exprs(ctx, [c for c in cases if c["kind"] == "expr"])
-        rej.update(pipeline.self_check_progs(ctx, [c for c in cases if c["kind"] == "prog"]))
+        rej.update(pipeline.self_check_progs(ctx, [c for c in cases if c["kind"] in ("prog", "coll")]))
         rej.update(pipeline.self_check_data(ctx, [c for c in cases if c["kind"] == "data"]))
         pipeline.self_check_ctl(ctx, [c for c in cases if c["kind"] == "ctl"])
     for cid, err in rej.items():
@@ -110,7 +116,7 @@ def run(ctx):
     for c, e in zip(cases, ev):
         sym = e["symptom"]
         stats[e["stage"] + (":" + sym if sym else ":ok")] = stats.get(e["stage"] + (":" + sym if sym else ":ok"), 0) + 1
-        src = " ; ".join(c["body"][-4:]) if c["kind"] in ("prog", "data") else (c["decls"] if c["kind"] == "ctl" else c["body"][-1])
+        src = " ; ".join(c["body"][-4:]) if c["kind"] in ("prog", "data") else (c["decls"] if c["kind"] == "ctl" else ("\n".join(c["body"]) if c["kind"] == "coll" else c["body"][-1]))
         if e["stage"] in ("ran", "abort"):
             n_ran += 1
             distinct.add(src)
